@@ -39,6 +39,11 @@ def _labels(prog, env, ctx):
 def check_multi(prog, ctx):
     env = engine.run_program(prog, check_c04=True)
     viol = oracles.clauses(env, "C04.")
+    if not viol:
+        env_b = oracles.again(prog, env, check_c04=True)
+        if env_b is not None:
+            viol += oracles.second(oracles.clauses(env_b, "C04."))
+            ctx.label("run-twice-on-one-scheduler")
     _labels(prog, env, ctx)
     return viol
 
@@ -55,6 +60,15 @@ def check_single(prog, ctx):
         viol.append(("C04.count", "%d flushes; the longest chain of sequentially dependent requests is %d" % (len(real), s.rounds)))
     elif real != s.flushed:
         viol.append(("C04.contents", "flush contents %r; all requests issuable before each flush: %r" % (real, s.flushed)))
+    if not viol:
+        env_b = oracles.again(prog, env, check_c04=True)
+        if env_b is not None:
+            v2 = oracles.clauses(env_b, "C04.")
+            real_b = [sorted(repr(a) for a in f[2]) for f in env_b.flushes]
+            if real_b != s.flushed:
+                v2.append(("C04.contents", "flush contents %r; all requests issuable before each flush: %r" % (real_b, s.flushed)))
+            viol += oracles.second(v2)
+            ctx.label("run-twice-on-one-scheduler")
     _labels(prog, env, ctx)
     return viol
 
